@@ -398,7 +398,7 @@ function!(BitNot(b:Integer)=>Integer, {
 
 function!(Negative(b:Integer)=>Integer, {
     let b:i64 = b.try_into()?;
-    Ok((-b).into())
+    b.checked_neg().map(Into::into).ok_or_else(|| err_msg("integer overflow"))
 });
 
 macro_rules! int_op{
@@ -411,23 +411,44 @@ macro_rules! int_op{
     }
 }
 
-int_op!(Plus,+);
-int_op!(Minus,-);
-int_op!(Multiply,*);
-int_op!(Divide,/);
-int_op!(Mod,%);
+// arithmetic that can overflow or divide by zero reports an error instead of panicking
+macro_rules! checked_int_op{
+    ($name:ident, $op:ident, $err:expr) =>{
+        function!($name(a: Integer, b: Integer)=>Integer, {
+            let a:i64 = a.try_into()?;
+            let b:i64 = b.try_into()?;
+            a.$op(b).map(Into::into).ok_or_else(|| err_msg($err))
+        });
+    }
+}
+
+// shift amount must be in 0..64
+macro_rules! shift_op{
+    ($name:ident, |$a:ident, $b:ident| $body:expr) =>{
+        function!($name(a: Integer, b: Integer)=>Integer, {
+            let $a:i64 = a.try_into()?;
+            let b:i64 = b.try_into()?;
+            if !(0..64).contains(&b) {
+                bail!("shift amount out of range: {}", b)
+            }
+            let $b = b as u32;
+            let ret: i64 = $body;
+            Ok(ret.into())
+        });
+    }
+}
+
+checked_int_op!(Plus, checked_add, "integer overflow");
+checked_int_op!(Minus, checked_sub, "integer overflow");
+checked_int_op!(Multiply, checked_mul, "integer overflow");
+checked_int_op!(Divide, checked_div, "division by zero or integer overflow");
+checked_int_op!(Mod, checked_rem, "division by zero or integer overflow");
 int_op!(BitAnd,&);
 int_op!(BitOr,|);
 int_op!(BitXor,^);
-int_op!(ShiftLeft,<<);
-int_op!(ShiftRight,>>);
-function!(ShiftRightUnsigned(a: Integer, b: Integer)=>Integer, {
-    let a:i64 = a.try_into()?;
-    let b:i64 = b.try_into()?;
-    let a = a as u64;
-    let a = (a >> b) as i64;
-    Ok(a.into())
-});
+shift_op!(ShiftLeft, |a, b| a << b);
+shift_op!(ShiftRight, |a, b| a >> b);
+shift_op!(ShiftRightUnsigned, |a, b| ((a as u64) >> b) as i64);
 
 function!(And(a: Boolean, b: Boolean)=>Boolean, ctx=ctx, arg_opts=raw,{
     let a:bool = a.real_value_of(ctx.clone())?.try_into()?;
